@@ -611,3 +611,286 @@ Proof.
   rewrite !mi_def, (perm_invariant1 x x' H Px), (perm_invariant1 y y' Hy Py), (perm_invariant2 x y x' y' H L L' P).
   reflexivity.
 Qed.
+
+(* ------------------------------------------------------------------ conditional mutual information *)
+Lemma Rsum_prod_nested {A B} (G : A * B -> R) la lb :
+  Rsum G (list_prod la lb) = Rsum (fun a => Rsum (fun b => G (a, b)) lb) la.
+Proof.
+  induction la as [|a la IH]; simpl; [reflexivity|].
+  rewrite Rsum_app, IH, Rsum_map. reflexivity.
+Qed.
+
+Section Marg.
+  Context {A B : Type}.
+  Variable dA : forall a b : A, {a = b} + {a <> b}.
+  Variable dB : forall a b : B, {a = b} + {a <> b}.
+  Notation dP := (dAB dA dB).
+
+  (* marginalisation of the joint counts *)
+  Lemma marginal (l : list (A * B)) cellsB a : NoDup cellsB -> incl (map snd l) cellsB ->
+    Rsum (fun b => INR (count_occ dP l (a, b))) cellsB = INR (count_occ dA (map fst l) a).
+  Proof.
+    intros Hn. induction l as [|[a' b'] l IH]; intros Hi.
+    - simpl. apply Rsum_zero.
+    - assert (Hi' : incl (map snd l) cellsB) by (intros x Hx; apply Hi; right; exact Hx).
+      assert (Hb : In b' cellsB) by (apply Hi; left; reflexivity).
+      specialize (IH Hi').
+      cbn [map fst]. cbn [count_occ].
+      destruct (dA a' a) as [->|Hne].
+      + rewrite S_INR, <- IH, <- (Rsum_indicator dB (fun _ => 1) b' cellsB Hn Hb), <- Rsum_plus.
+        apply Rsum_ext. intros b _.
+        destruct (dP (a, b') (a, b)) as [E|E]; destruct (dB b' b) as [E2|E2]; try (rewrite S_INR); try ring.
+        * exfalso. apply E2. inversion E. reflexivity.
+        * exfalso. apply E. subst. reflexivity.
+      + rewrite <- IH. apply Rsum_ext. intros b _.
+        destruct (dP (a', b') (a, b)) as [E|E]; [exfalso; apply Hne; inversion E; reflexivity|reflexivity].
+  Qed.
+End Marg.
+
+Lemma Ls_mapform {T U} (dU : forall a b : U, {a = b} + {a <> b}) (f : T -> U) (l : list T) :
+  Ls dU (map f l) = Rsum (fun t => - ln (INR (count_occ dU (map f l) (f t)) / INR (length l))) l.
+Proof. unfold Ls. rewrite map_length, Rsum_map. reflexivity. Qed.
+
+Section CMI.
+  Context {A B C : Type}.
+  Variable dA : forall a b : A, {a = b} + {a <> b}.
+  Variable dB : forall a b : B, {a = b} + {a <> b}.
+  Variable dC : forall a b : C, {a = b} + {a <> b}.
+  Notation dBC := (dAB dB dC).
+  Notation dABC := (dAB dA dBC).
+  Notation dAB' := (dAB dA dB).
+  Notation dAC := (dAB dA dC).
+  Definition pf (z : A * (B * C)) : A * B := (fst z, fst (snd z)).
+  Definition pj (z : A * (B * C)) : A * C := (fst z, snd (snd z)).
+
+  Variable l : list (A * (B * C)).
+  Let lP := map fst l.
+  Let lPF := map pf l.
+  Let lPJ := map pj l.
+  Let cP (a : A) := INR (count_occ dA lP a).
+  Let cPF (x : A * B) := INR (count_occ dAB' lPF x).
+  Let cPJ (x : A * C) := INR (count_occ dAC lPJ x).
+  Let c (z : A * (B * C)) := INR (count_occ dABC l z).
+
+  Lemma cmi_cross_sum :
+    Rsum (fun t => cPF (pf t) * cPJ (pj t) * / cP (fst t) * / c t) l <= INR (length l).
+  Proof.
+    assert (Hi : incl l (nodup dABC l)) by (intros a Ha; apply nodup_In; exact Ha).
+    rewrite (Rsum_counts dABC _ (nodup dABC l) (NoDup_nodup dABC l) l Hi).
+    set (G := fun z : A * (B * C) => cPF (pf z) * cPJ (pj z) * / cP (fst z)).
+    apply (Rle_trans _ (Rsum G (nodup dABC l))).
+    { apply Rsum_le. intros z Hz. apply nodup_In in Hz.
+      pose proof (cnt_pos dABC l z Hz) as Hc. apply lt_INR in Hc. simpl in Hc.
+      unfold G, c. set (X := cPF (pf z) * cPJ (pj z) * / cP (fst z)). set (k := INR (count_occ dABC l z)) in *.
+      right. replace (k * (X * / k)) with (X * (k * / k)) by ring. rewrite Rinv_r by lra. ring. }
+    set (cellsP := nodup dA lP).
+    set (cellsF := nodup dB (map (fun z => fst (snd z)) l)).
+    set (cellsJ := nodup dC (map (fun z => snd (snd z)) l)).
+    assert (Gpos : forall z, 0 <= G z).
+    { intros z. unfold G, cPF, cPJ, cP. repeat apply Rmult_le_pos; try apply pos_INR.
+      destruct (count_occ dA lP (fst z)) eqn:E.
+      - simpl. rewrite Rinv_0. lra.
+      - left. apply Rinv_0_lt_compat. apply lt_0_INR. lia. }
+    apply (Rle_trans _ (Rsum G (list_prod cellsP (list_prod cellsF cellsJ)))).
+    { apply Rsum_incl_le; [exact Gpos|apply NoDup_nodup|].
+      intros [p [f j]] Hz. apply nodup_In in Hz. apply in_prod; [|apply in_prod]; apply nodup_In.
+      - apply (in_map fst l _ Hz).
+      - apply (in_map (fun z => fst (snd z)) l _ Hz).
+      - apply (in_map (fun z => snd (snd z)) l _ Hz). }
+    rewrite Rsum_prod_nested.
+    assert (MF : forall p, Rsum (fun f => cPF (p, f)) cellsF = cP p).
+    { intros p. unfold cPF, cP, lPF, lP.
+      rewrite (marginal dA dB (map pf l) cellsF p); [|apply NoDup_nodup|].
+      - rewrite map_map. reflexivity.
+      - rewrite map_map. intros x Hx. apply nodup_In. exact Hx. }
+    assert (MJ : forall p, Rsum (fun j => cPJ (p, j)) cellsJ = cP p).
+    { intros p. unfold cPJ, cP, lPJ, lP.
+      rewrite (marginal dA dC (map pj l) cellsJ p); [|apply NoDup_nodup|].
+      - rewrite map_map. reflexivity.
+      - rewrite map_map. intros x Hx. apply nodup_In. exact Hx. }
+    apply (Rle_trans _ (Rsum cP cellsP)).
+    { apply Rsum_le. intros p Hp.
+      rewrite (Rsum_ext _ (fun fj => (/ cP p * cPF (p, fst fj)) * cPJ (p, snd fj)) (list_prod cellsF cellsJ)).
+      2:{ intros [f j] _. unfold G, pf, pj. simpl. ring. }
+      rewrite (Rsum_prod (fun f => / cP p * cPF (p, f)) (fun j => cPJ (p, j))).
+      rewrite Rsum_scal, MF, MJ.
+      unfold cP. destruct (count_occ dA lP p) eqn:E.
+      - simpl. rewrite Rinv_0. lra.
+      - right. field. apply not_0_INR. lia. }
+    unfold cP, cellsP. rewrite sum_counts. unfold lP. rewrite map_length. lra.
+  Qed.
+
+  (* conditional mutual information I(F;J|P) >= 0, as sums of -ln p over the samples *)
+  Theorem Ls_cmi_nonneg : 0 <= Ls dAB' lPF + Ls dAC lPJ - Ls dA lP - Ls dABC l.
+  Proof.
+    destruct (Nat.eq_dec (length l) 0) as [E0|E0].
+    { apply length_zero_iff_nil in E0. unfold lPF, lPJ, lP. rewrite E0. unfold Ls. simpl. lra. }
+    assert (Hl : l <> []) by (intro E; rewrite E in E0; apply E0; reflexivity).
+    pose proof (len_pos l Hl) as Hp. set (n := INR (length l)) in *.
+    unfold lPF, lPJ, lP. rewrite (Ls_mapform dAB' pf l), (Ls_mapform dAC pj l), (Ls_mapform dA fst l).
+    unfold Ls at 1. fold n. fold lPF lPJ lP. fold (cPF) (cPJ) (cP).
+    change (Rsum (fun t => - ln (INR (count_occ dAB' lPF (pf t)) / n)) l) with (Rsum (fun t => - ln (cPF (pf t) / n)) l).
+    change (Rsum (fun t => - ln (INR (count_occ dAC lPJ (pj t)) / n)) l) with (Rsum (fun t => - ln (cPJ (pj t) / n)) l).
+    change (Rsum (fun t => - ln (INR (count_occ dA lP (fst t)) / n)) l) with (Rsum (fun t => - ln (cP (fst t) / n)) l).
+    change (Rsum (fun t => - ln (INR (count_occ dABC l t) / n)) l) with (Rsum (fun t => - ln (c t / n)) l).
+    set (r := fun t => cPF (pf t) * cPJ (pj t) * / cP (fst t) * / c t).
+    assert (E : Rsum (fun t => 1 - r t) l <=
+                Rsum (fun t => - ln (cPF (pf t) / n)) l + Rsum (fun t => - ln (cPJ (pj t) / n)) l
+                - Rsum (fun t => - ln (cP (fst t) / n)) l - Rsum (fun t => - ln (c t / n)) l).
+    { rewrite (Rsum_opp (fun t => ln (cP (fst t) / n)) l), (Rsum_opp (fun t => ln (c t / n)) l).
+      set (f1 := fun t => - ln (cPF (pf t) / n)). set (f2 := fun t => - ln (cPJ (pj t) / n)).
+      set (g1 := fun t => ln (cP (fst t) / n)). set (g2 := fun t => ln (c t / n)).
+      replace (Rsum f1 l + Rsum f2 l - - Rsum g1 l - - Rsum g2 l)
+        with (Rsum (fun t => f1 t + f2 t + g1 t + g2 t) l) by (rewrite !Rsum_plus; ring).
+      unfold f1, f2, g1, g2. apply Rsum_le. intros t Ht.
+      assert (H1 : 0 < cPF (pf t)) by (apply lt_0_INR, cnt_pos, in_map, Ht).
+      assert (H2 : 0 < cPJ (pj t)) by (apply lt_0_INR, cnt_pos, in_map, Ht).
+      assert (H3 : 0 < cP (fst t)) by (apply lt_0_INR, cnt_pos, in_map, Ht).
+      assert (H4 : 0 < c t) by (apply lt_0_INR, cnt_pos, Ht).
+      unfold r. set (a := cPF (pf t)) in *. set (b := cPJ (pj t)) in *. set (p := cP (fst t)) in *. set (q := c t) in *.
+      assert (Hr : 0 < a * b * / p * / q).
+      { repeat apply Rmult_lt_0_compat; try assumption; apply Rinv_0_lt_compat; assumption. }
+      pose proof (ln_le_sub1 _ Hr) as G.
+      rewrite !ln_mult in G; try assumption; try (apply Rinv_0_lt_compat; assumption);
+        try (repeat apply Rmult_lt_0_compat; try assumption; apply Rinv_0_lt_compat; assumption).
+      rewrite !ln_Rinv in G by assumption.
+      rewrite !ln_div by assumption. lra. }
+    pose proof cmi_cross_sum as S. fold r in S. fold n in S.
+    assert (E2 : Rsum (fun t => 1 - r t) l = n - Rsum r l).
+    { rewrite (Rsum_ext _ (fun t => 1 + -1 * r t) l) by (intros; ring).
+      rewrite Rsum_plus, Rsum_const, Rsum_scal. fold n. ring. }
+    lra.
+  Qed.
+End CMI.
+
+(* ------------------------------------------------------------------ transfer entropy >= 0 *)
+Lemma combine_pf {A B C} (P : list A) (F : list B) (J : list C) : length P = length F -> length F = length J ->
+  map pf (combine P (combine F J)) = combine P F.
+Proof.
+  revert F J. induction P as [|p P IH]; intros [|f F] [|j J] H1 H2; simpl in *; try discriminate; try reflexivity.
+  unfold pf at 1. simpl. rewrite IH by lia. reflexivity.
+Qed.
+Lemma combine_pj {A B C} (P : list A) (F : list B) (J : list C) : length P = length F -> length F = length J ->
+  map pj (combine P (combine F J)) = combine P J.
+Proof.
+  revert F J. induction P as [|p P IH]; intros [|f F] [|j J] H1 H2; simpl in *; try discriminate; try reflexivity.
+  unfold pj at 1. simpl. rewrite IH by lia. reflexivity.
+Qed.
+Lemma combine_p {A B C} (P : list A) (F : list B) (J : list C) : length P = length F -> length F = length J ->
+  map fst (combine P (combine F J)) = P.
+Proof. intros H1 H2. apply fst_combine. rewrite combine_length. lia. Qed.
+
+Lemma rows3 (F J P : list Z) : length P = length F -> length F = length J ->
+  rows [F; J; P] = map (fun z : Z * (Z * Z) => [fst (snd z); snd (snd z); fst z]) (combine P (combine F J)).
+Proof.
+  intros H1 H2. rewrite rows_cons2, rows_cons2. cbn [rows]. rewrite zipcons_map. unfold zipcons.
+  revert F J H1 H2. induction P as [|p P IH]; intros [|f F] [|j J] H1 H2; simpl in *; try discriminate; try reflexivity.
+  rewrite IH by lia. reflexivity.
+Qed.
+
+Lemma roll_left_length x lag : length (roll_left x lag) = length x.
+Proof.
+  unfold roll_left. destruct (length x) eqn:E; [exact E|].
+  rewrite app_length, skipn_length, firstn_length, E.
+  pose proof (Nat.mod_upper_bound lag (S n) ltac:(lia)). lia.
+Qed.
+
+Definition dZ3 := @dAB Z (Z * Z) Z.eq_dec dZZ.
+
+Lemma entropyR3 F J P : P <> [] -> length P = length F -> length F = length J ->
+  entropyR [F; J; P] = Hs dZ3 (combine P (combine F J)).
+Proof.
+  intros HP H1 H2.
+  rewrite (entropyR_rows [F; J; P] (length P)); [|discriminate|destruct P; [contradiction|simpl; lia]|repeat constructor; lia].
+  rewrite rows3 by assumption.
+  apply (Hs_map dZ3 tuple_eq_dec). intros [p [f j]] [p' [f' j']] E. simpl in E. inversion E. reflexivity.
+Qed.
+
+Theorem transfer_entropy_nonneg x y lag : x <> [] -> length x = length y -> 0 <= teR x y lag.
+Proof.
+  intros Hx L. unfold teR, transfer_entropy_gen. cbv zeta.
+  set (Fi := roll_left x lag). assert (LF : length Fi = length x) by apply roll_left_length.
+  assert (HF : Fi <> []) by (intro E; rewrite E in LF; destruct x; [contradiction|discriminate]).
+  change (cond_entropy_gen R 0 Rplus Rminus termR Fi x) with (condR Fi x). rewrite cond_def.
+  change (entropy_gen R 0 Rplus termR) with entropyR.
+  rewrite (entropyR2 x Fi Hx) by lia. rewrite (entropyR1 x Hx).
+  rewrite (entropyR3 Fi y x Hx) by lia. rewrite (entropyR2 x y Hx L).
+  set (l := combine x (combine Fi y)).
+  assert (Ll : length l = length x) by (unfold l; rewrite !combine_length; lia).
+  replace (Hs dZZ (combine x Fi)) with (Hs dZZ (map pf l)) by (unfold l; rewrite combine_pf by lia; reflexivity).
+  replace (Hs dZZ (combine x y)) with (Hs dZZ (map pj l)) by (unfold l; rewrite combine_pj by lia; reflexivity).
+  replace (Hs dZ x) with (Hs dZ (map fst l)) by (unfold l; rewrite combine_p by lia; reflexivity).
+  unfold Hs. rewrite !map_length.
+  assert (Hl : l <> []) by (intro E; rewrite E in Ll; destruct x; [contradiction|discriminate]).
+  pose proof (len_pos l Hl) as Hp. pose proof ln2_pos as H2.
+  pose proof (Ls_cmi_nonneg Z.eq_dec Z.eq_dec Z.eq_dec l) as M.
+  set (d := INR (length l) * ln 2). assert (Hd : 0 < / d) by (apply Rinv_0_lt_compat; unfold d; apply Rmult_lt_0_compat; assumption).
+  unfold dZ3, dZZ, dZ in *.
+  match goal with |- 0 <= ?a / d - ?b / d - (?c / d - ?e / d) =>
+    replace (a / d - b / d - (c / d - e / d)) with ((a + e - b - c) * / d) by (unfold Rdiv; ring) end.
+  apply Rmult_le_pos; [exact M|lra].
+Qed.
+
+(* ------------------------------------------------------------------ further invariances *)
+Lemma nonempty_len {A B} (x : list A) (y : list B) : x <> [] -> length x = length y -> y <> [].
+Proof. destruct x, y; simpl; intros; try discriminate; try contradiction. Qed.
+
+(* conditional entropy: invariant under relabelling and joint permutation *)
+Theorem cond_relabel_invariant f g x y : (forall a b : Z, f a = f b -> a = b) -> (forall a b : Z, g a = g b -> a = b) ->
+  x <> [] -> length x = length y -> condR (map f x) (map g y) = condR x y.
+Proof.
+  intros Hf Hg H L. pose proof (nonempty_len x y H L) as Hy.
+  rewrite !cond_def, (relabel_invariant2 g f y x Hg Hf Hy (eq_sym L)), (relabel_invariant1 g y Hg Hy). reflexivity.
+Qed.
+
+Theorem cond_perm_invariant x y x' y' : x <> [] -> length x = length y -> length x' = length y' ->
+  Permutation (combine x y) (combine x' y') -> condR x y = condR x' y'.
+Proof.
+  intros H L L' P. pose proof (nonempty_len x y H L) as Hy.
+  assert (P2 : Permutation (combine y x) (combine y' x')).
+  { rewrite (combine_swap x y), (combine_swap x' y'). apply Permutation_map. exact P. }
+  assert (Py : Permutation y y').
+  { rewrite <- (snd_combine x y L), <- (snd_combine x' y' L'). apply Permutation_map. exact P. }
+  rewrite !cond_def, (perm_invariant2 y x y' x' Hy (eq_sym L) (eq_sym L') P2), (perm_invariant1 y y' Hy Py). reflexivity.
+Qed.
+
+(* transfer entropy: invariant under relabelling (it is not a function of the sample multiset:
+   the time order enters through np.roll) *)
+Lemma roll_left_map f x lag : roll_left (map f x) lag = map f (roll_left x lag).
+Proof.
+  unfold roll_left. rewrite map_length. destruct (length x); [reflexivity|].
+  rewrite map_app, skipn_map, firstn_map. reflexivity.
+Qed.
+
+Lemma combine3_map (f g h : Z -> Z) (P F J : list Z) :
+  combine (map h P) (combine (map f F) (map g J)) =
+  map (fun z : Z * (Z * Z) => (h (fst z), (f (fst (snd z)), g (snd (snd z))))) (combine P (combine F J)).
+Proof.
+  rewrite (combine_map2 f g), (combine_map2 h (fun p : Z * Z => (f (fst p), g (snd p)))). reflexivity.
+Qed.
+
+Lemma entropyR3_relabel f g h F J P : (forall a b : Z, f a = f b -> a = b) -> (forall a b : Z, g a = g b -> a = b) ->
+  (forall a b : Z, h a = h b -> a = b) -> P <> [] -> length P = length F -> length F = length J ->
+  entropyR [map f F; map g J; map h P] = entropyR [F; J; P].
+Proof.
+  intros Hf Hg Hh HP L1 L2.
+  assert (HP' : map h P <> []) by (destruct P; [contradiction|discriminate]).
+  rewrite (entropyR3 (map f F) (map g J) (map h P) HP') by (rewrite !map_length; assumption).
+  rewrite (entropyR3 F J P HP L1 L2), combine3_map.
+  apply (Hs_map dZ3 dZ3). intros [p [a b]] [p' [a' b']] E. simpl in E. inversion E as [[E1 E2 E3]].
+  apply Hh in E1. apply Hf in E2. apply Hg in E3. subst. reflexivity.
+Qed.
+
+Theorem te_relabel_invariant f g x y lag : (forall a b : Z, f a = f b -> a = b) -> (forall a b : Z, g a = g b -> a = b) ->
+  x <> [] -> length x = length y -> teR (map f x) (map g y) lag = teR x y lag.
+Proof.
+  intros Hf Hg H L. unfold teR, transfer_entropy_gen. cbv zeta.
+  rewrite roll_left_map. set (Fi := roll_left x lag).
+  assert (LF : length Fi = length x) by apply roll_left_length.
+  assert (HF : Fi <> []) by (intro E; rewrite E in LF; destruct x; [contradiction|discriminate]).
+  change (cond_entropy_gen R 0 Rplus Rminus termR) with condR.
+  change (entropy_gen R 0 Rplus termR) with entropyR.
+  rewrite (cond_relabel_invariant f f Fi x Hf Hf HF LF).
+  rewrite (entropyR3_relabel f g f Fi y x Hf Hg Hf H) by lia.
+  rewrite (relabel_invariant2 f g x y Hf Hg H L). reflexivity.
+Qed.
